@@ -17,7 +17,7 @@ Proof.
 Qed.
 
 Definition pair_guard (v : pyval) : bool :=
-  supported v && homogeneous_sortable v && no_pandas v && no_zero_count v && unmasked v.
+  supported v && homogeneous_sortable v && no_pandas v && unmasked v.
 
 Theorem spec_ok_pair : forall fp v w,
   pair_guard v = true -> pair_guard w = true -> spec_ok (CPair fp v w) (run (CPair fp v w)) = true.
